@@ -35,11 +35,28 @@ def make_blob(byte_strings):
     return b"".join(parts)
 
 
-_OBJ_LINE = re.compile(r"^\s*([0-9a-f]+):\t((?:[0-9a-f]{2} )+)\s*\t?(.*)$")
-_LLVM_LINE = re.compile(r"^\s*([0-9a-f]+):\s((?:[0-9a-f]{2} )+)\s*\t?(.*)$")
+_ADDR = re.compile(r"^\s*([0-9a-f]+):[ \t](.*)$")
+_HEXBYTES = re.compile(r"^(?:[0-9a-f]{2} )*[0-9a-f]{2}$")
+
+
+def _split_line(line):
+    """'<addr>:<ws><hex bytes><tab><text>' of objdump / llvm-objdump -> (addr, nbytes, text) or None."""
+    m = _ADDR.match(line)
+    if not m:
+        return None
+    rest = m.group(2)
+    i = rest.find("\t")
+    if i < 0:
+        hexpart, text = rest, ""
+    else:
+        hexpart, text = rest[:i], rest[i + 1:]
+    hexpart = hexpart.strip()
+    if not _HEXBYTES.match(hexpart):
+        return None
+    return int(m.group(1), 16), (len(hexpart) + 1) // 3, text.strip()
 
 # mnemonics llvm-objdump prints as separate "instructions" for prefixes
-_LLVM_PREFIX_ONLY = {"lock", "rep", "repne", "repe", "repz", "repnz", "xacquire", "xrelease", "data16", "addr32", "addr16",
+_LLVM_PREFIX_ONLY = {"wait", "lock", "rep", "repne", "repe", "repz", "repnz", "xacquire", "xrelease", "data16", "addr32", "addr16",
                      "notrack", "cs", "ds", "es", "ss", "fs", "gs", "rex64", "data32", "bnd"}
 
 
@@ -67,7 +84,7 @@ def _collect(lines_by_slot, nslots, byte_strings, merge_prefixes):
         off, n, text = ls[0]
         j = 1
         if merge_prefixes:
-            while text.strip() in _LLVM_PREFIX_ONLY and j < len(ls) and ls[j][0] == off + n:
+            while all(w in _LLVM_PREFIX_ONLY for w in text.split()) and j < len(ls) and ls[j][0] == off + n:
                 text = text.strip() + " " + ls[j][2]
                 n += ls[j][1]
                 j += 1
@@ -91,12 +108,11 @@ def objdump_decode(byte_strings, mode, workdir, tag):
     for line in r.stdout.decode("utf-8", "replace").split("\n"):
         if line.endswith("\tint3") and "\tcc   " in line:
             continue
-        m = _OBJ_LINE.match(line)
-        if not m:
+        p = _split_line(line)
+        if p is None:
             continue
-        a = int(m.group(1), 16)
-        n = len(m.group(2)) // 3
-        by.setdefault(a // SLOT, []).append((a % SLOT, n, m.group(3)))
+        a, n, text = p
+        by.setdefault(a // SLOT, []).append((a % SLOT, n, text))
     return _collect(by, len(byte_strings), byte_strings, False)
 
 
@@ -113,20 +129,18 @@ def llvm_decode(byte_strings, mode, workdir, tag):
     r = _run(oc + ["--rename-section", ".data=.text,alloc,load,readonly,code,contents", path, obj])
     if r.returncode != 0:
         raise RuntimeError("objcopy failed: " + r.stderr.decode("utf-8", "replace")[-500:])
-    r = _run(["llvm-objdump", "-d", "--x86-asm-syntax=intel", "--no-show-raw-insn", obj][:0] +
-             ["llvm-objdump", "-d", "--x86-asm-syntax=intel", obj])
+    r = _run(["llvm-objdump", "-d", "--x86-asm-syntax=intel", obj])
     if r.returncode != 0:
         raise RuntimeError("llvm-objdump failed: " + r.stderr.decode("utf-8", "replace")[-500:])
     by = {}
     for line in r.stdout.decode("utf-8", "replace").split("\n"):
         if line.endswith("\tint3") and ": cc  " in line:
             continue
-        m = _LLVM_LINE.match(line)
-        if not m:
+        p = _split_line(line)
+        if p is None:
             continue
-        a = int(m.group(1), 16)
-        n = len(m.group(2)) // 3
-        by.setdefault(a // SLOT, []).append((a % SLOT, n, m.group(3)))
+        a, n, text = p
+        by.setdefault(a // SLOT, []).append((a % SLOT, n, text))
     return _collect(by, len(byte_strings), byte_strings, True)
 
 
@@ -212,6 +226,35 @@ _SYM = re.compile(r"\s*<[^>]*>")
 _WS = re.compile(r"\s+")
 
 
+_G16 = ["ax", "cx", "dx", "bx", "sp", "bp", "si", "di"]
+_TO32 = {}
+for _i, _n in enumerate(_G16):
+    _TO32[_n] = "e" + _n
+    _TO32["r" + _n] = "e" + _n
+for _i in range(8, 16):
+    _TO32["r%dw" % _i] = "r%dd" % _i
+    _TO32["r%d" % _i] = "r%dd" % _i
+_TO32_FROM64 = {k: v for k, v in _TO32.items() if k.startswith("r") and not k.endswith("w")}
+_SEGMOV = re.compile(r"^(mov) ((?:[ecsdfg]s),\s*)(\w+)$|^(mov) (\w+)(,\s*(?:[ecsdfg]s))$|^(sldt|str|smsw) (\w+)$")
+
+
+def _canon_width_insensitive(t):
+    """mov sreg,r16/r32/r64, mov r,sreg, sldt/str/smsw r: the register width does not change what is executed
+    (SDM: the upper bits are zero-extended / ignored; a 66 or REX.W prefix is redundant) - compare with the
+    32-bit register name."""
+    if t.startswith("data16 mov ") and t[-2:] in ("es", "cs", "ss", "ds", "fs", "gs") and "ptr" in t:
+        t = t[7:]           # objdump names the redundant 66 of "mov m16,sreg"
+    m = _SEGMOV.match(t)
+    if not m:
+        return t
+    if m.group(1):
+        return "%s %s%s" % (m.group(1), m.group(2), _TO32.get(m.group(3), m.group(3)))
+    # destination register: only 64 -> 32 is equivalent (a 16-bit destination keeps the upper bits)
+    if m.group(4):
+        return "%s %s%s" % (m.group(4), _TO32_FROM64.get(m.group(5), m.group(5)), m.group(6))
+    return "%s %s" % (m.group(7), _TO32_FROM64.get(m.group(8), m.group(8)))
+
+
 def normalize(text):
     """Normalisation applied to BOTH sides of a same-decoder comparison: comments / symbol annotations /
     whitespace / pseudo prefixes that only name the chosen encoding."""
@@ -224,4 +267,4 @@ def normalize(text):
     t = _PSEUDO.sub("", t)
     if t.startswith("movabs "):
         t = "mov " + t[7:]
-    return t
+    return _canon_width_insensitive(t)
